@@ -397,6 +397,8 @@ class MethodsMixin(object):
                     return VInt(len(c.items))
                 if isinstance(c, HDict) and c.items is not None:
                     return VInt(len(c.items))
+                if isinstance(c, HDict) and c.size is not None:
+                    return VInt(c.size)
             if isinstance(v, VPy):
                 self.safety(st, "TypeError", PyVal.is_pstr(v.e), node, "len() of a value that may not be a string")
                 return VInt(z3.Length(PyVal.ps(v.e)))
@@ -563,6 +565,35 @@ class MethodsMixin(object):
                                 self.late_axioms.append(a)
                         return z3.Implies(z3.And(*cond), r) if cond else r
                     return VQ(lo, hi, body)
+                if isinstance(it, VRef) and isinstance(st.heap[it.oid], HDict) and st.heap[it.oid].items is None \
+                        and isinstance(g.target, ast.Name):
+                    d = st.heap[it.oid]
+                    var = g.target.id
+                    env = dict(st.env)
+                    heap = dict(st.heap)
+
+                    def sbody(x, self=self, st=st, env=env, heap=heap, var=var, g=g, arg=arg):
+                        st2 = st.fork()
+                        st2.env = dict(env)
+                        st2.heap = dict(heap)
+                        st2.env[var] = VStr(x)
+                        st2.guards = []
+                        save = (self.obligs, self.trivial)
+                        self.obligs = []
+                        was = self.in_contract
+                        self.in_contract = True
+                        try:
+                            cond = [self.truth(self.ev(c, st2), st2) for c in g.ifs]
+                            r = self.truth(self.ev(arg.elt, st2), st2)
+                        finally:
+                            dropped = self.obligs
+                            self.obligs, self.trivial = save
+                            self.in_contract = was
+                        extra = [z3.Implies(z3.And(*o.hyps[len(st.pc):]) if o.hyps[len(st.pc):] else True, o.goal)
+                                 for o in dropped if not isinstance(o.goal, V)]
+                        r = z3.And(r, *extra) if extra else r
+                        return z3.Implies(z3.And(*cond), r) if cond else r
+                    return VQ(None, None, sbody, sort="str", guard=lambda x, d=d: z3.Select(d.keys, x))
                 if isinstance(it, VRef) and isinstance(st.heap[it.oid], HCList):
                     res = []
                     for x in st.heap[it.oid].items:
@@ -583,7 +614,7 @@ class MethodsMixin(object):
             try:
                 bv = self.ev(node.args[1], st)
                 if isinstance(bv, VQ):
-                    return VQ(bv.lo, bv.hi, lambda i, a=a, bv=bv: z3.Implies(a, bv.body(i)))
+                    return VQ(bv.lo, bv.hi, lambda i, a=a, bv=bv: z3.Implies(a, bv.body(i)), bv.sort, bv.guard)
                 b = self.truth(bv, st)
             finally:
                 st.guards.pop()
@@ -645,7 +676,11 @@ class MethodsMixin(object):
             v = self.ev(node.args[0], st)
             return VBool(self.isinstance1(v, "bool", st, node))
 
-        return dict(same_except=sf_same_except, isnone=sf_isnone, isbool=sf_isbool, firstfield=sf_firstfield, lastpiece=sf_lastpiece, isint=sf_isint, isstr=sf_isstr, asstr=sf_asstr, WC=sf_wc, code=_sf_code(self), all=sf_all, old=sf_old, implies=sf_implies, iff=sf_iff, allws=sf_allws,
+        def sf_wfmt(node, st):
+            from contracts.wrapc_capsule import WFMT
+            return VStr(WFMT(self.ev(node.args[0], st).e))
+
+        return dict(wfmt=sf_wfmt, same_except=sf_same_except, isnone=sf_isnone, isbool=sf_isbool, firstfield=sf_firstfield, lastpiece=sf_lastpiece, isint=sf_isint, isstr=sf_isstr, asstr=sf_asstr, WC=sf_wc, code=_sf_code(self), all=sf_all, old=sf_old, implies=sf_implies, iff=sf_iff, allws=sf_allws,
                     lstrip=sf_lstrip, rstrip=sf_rstrip)
 
 
